@@ -48,9 +48,11 @@ let run_case (line:string) : string =
     (if ok then "ok " else "err ") ^ ents_str vis
   | "dir_ser" | "dir_ser_gz" -> "ok " ^ hex_of_bytes (serialize_entries (tents ts))
   | "dir_deser" | "dir_deser_gz" ->
-    (match deserialize_checked (bytes_of_hex (tok ts)) with
-     | DOk es -> "ok " ^ ents_str es
-     | DExhaust -> "exhaust")
+    "ok " ^ ents_str (deserialize_entries (bytes_of_hex (tok ts)))
+  | "dir_deser_chk" ->
+    (match deserialize_res (bytes_of_hex (tok ts)) with
+     | Some es -> "ok " ^ ents_str es
+     | None -> "err")
   | "zxy2id" -> let z = tn ts in let x = tn ts in let y = tn ts in "ok " ^ string_of_n (zxy_to_id z x y)
   | "id2zxy" -> let ((z, x), y) = id_to_zxy (tn ts) in
     String.concat " " ["ok"; string_of_n z; string_of_n x; string_of_n y]
